@@ -3,13 +3,14 @@ import PyaModel.Spec.MiniSem
 import PyaModel.Spec.D01
 /-! Line protocol driver for C01.
 in : `run <prog> <args>`   prog = `(prog (<T>…) <stmt>…)`, args = `(args <o>…)` (s-expressions, Core/Sexp.lean)
-        stmt = `(asg x e)` | `(if t (<stmt>…) (<stmt>…))` | `(ret e)`
-        expr = `(lit o)` | `(var x)` | `(tup e…)` | `(lst e…)` | `(sub e i)` | `(ite t a b)`
+        prog may carry `(rets <T>…)` (declared return types of the helper functions) after the parameter types
+        stmt = `(asg x e)` | `(if t (<stmt>…) (<stmt>…))` | `(ret e)` | `(unp (x…) e)`
+        expr = `(lit o)` | `(var x)` | `(tup e…)` | `(lst e…)` | `(sub e i)` | `(ite t a b)` | `(call f e…)`
         test = `(isnone x)` | `(notnone x)` | `(not t)`
-     `cls <skeleton tokens>`   (Spec/D01.lean)       `binop <isAdd> <lTuple> <rTuple>`     `call <shared> <seqForm> <valSeq>`     `conv <isListOrTuple> <seqForm> <valSeq>`
+     `cls <skeleton tokens>`   (Spec/D01.lean)     `call <shared> <seqForm> <valSeq>`     `conv <isListOrTuple> <seqForm> <valSeq>`
      `mem <o> <T>`
 out: run: `I <path>=<T>;… | F <flags> | X <path>=<o>;… | O <outcome> | A <argsOk>`  (path = indices joined by `.`, root first)
-     cls: the classes, comma separated, `-` if none;   binop: `tupleConcat` or `-`;   mem: `1`/`0`
+     cls: the classes, comma separated, `-` if none;   mem: `1`/`0`
 -/
 open Pya Pya.C01
 
@@ -29,6 +30,7 @@ partial def toExpr : Sexp → Option Expr
   | .node (.atom "lst" :: es) => (toExprs es).map (Expr.disp true)
   | .node [.atom "sub", e, .atom i] => do some (.sub (← toExpr e) (← i.toInt?))
   | .node [.atom "ite", t, a, b] => do some (.ite (← toTest t) (← toExpr a) (← toExpr b))
+  | .node (.atom "call" :: .atom f :: es) => do some (.call (← f.toNat?) (← toExprs es))
   | _ => none
 partial def toExprs : List Sexp → Option (List Expr)
   | [] => some []
@@ -39,6 +41,8 @@ mutual
 partial def toStmt : Sexp → Option Stmt
   | .node [.atom "asg", .atom x, e] => do some (.assign (← x.toNat?) (← toExpr e))
   | .node [.atom "ret", e] => (toExpr e).map Stmt.ret
+  | .node [.atom "unp", .node xs, e] => do
+    some (.unpack (← xs.mapM fun x => match x with | .atom a => a.toNat? | _ => none) (← toExpr e))
   | .node [.atom "if", t, .node b, .node e] => do some (.ifs (← toTest t) (← toStmts b) (← toStmts e))
   | _ => none
 partial def toStmts : List Sexp → Option (List Stmt)
@@ -47,8 +51,20 @@ partial def toStmts : List Sexp → Option (List Stmt)
 end
 
 def toProg : Sexp → Option Prog
-  | .node (.atom "prog" :: .node ts :: ss) => do some ⟨← Sexp.toTys ts, ← toStmts ss⟩
+  | .node (.atom "prog" :: .node ts :: .node (.atom "rets" :: rs) :: ss) => do
+    some ⟨← Sexp.toTys ts, ← Sexp.toTys rs, ← toStmts ss⟩
+  | .node (.atom "prog" :: .node ts :: ss) => do some ⟨← Sexp.toTys ts, [], ← toStmts ss⟩
   | _ => none
+
+/-- the helper functions of the harness (harness/props/c01.py MINI_HELPERS), for the `eval` stream -/
+def implStd : Impl
+  | 0, [_] => some (.int 7)
+  | 1, [a] => some (if isNoneObj a then .none else .str "s")
+  | 2, [_] => some (.tuple [.int 3, .str "t"])
+  | 3, [_, _] => some (.list [.int 1, .int 2])
+  | 4, [a] => some (match a with | .int n => .int n | _ => .none)
+  | 5, [a] => some a
+  | _, _ => none
 
 def showPath (p : Path) : String := ".".intercalate (p.reverse.map toString)
 
@@ -68,7 +84,7 @@ def runCase (p a : Sexp) : String :=
     match Sexp.toObjs os with
     | some args =>
       let st := infer prog
-      let (out, lg) := exec prog args
+      let (out, lg) := exec implStd prog args
       let i := ";".intercalate (st.log.map fun (pt : Path × Ty) => s!"{showPath pt.1}={pt.2.show}")
       let x := ";".intercalate (lg.map fun (po : Path × Obj) => s!"{showPath po.1}={po.2.show}")
       s!"I {i} | F {showFlags st.flags} | X {x} | O {showOutcome out} | A {b2s (argsOk prog.params args)}"
@@ -149,8 +165,6 @@ def handle (line : String) : String :=
   else
   match readSexps line with
   | some [.atom "run", p, a] => runCase p a
-  | some [.atom "binop", .atom a, .atom l, .atom r] =>
-    if D01_tupleConcat (a == "1") (l == "1") (r == "1") then "tupleConcat" else "-"
   | some [.atom "call", .atom a, .atom l, .atom r] =>
     if D01_seqLeniency (a == "1") (l == "1") (r == "1") then "C04:seqLeniency" else "-"
   | some [.atom "conv", .atom a, .atom l, .atom r] =>
